@@ -151,6 +151,18 @@ Theorem C14_check_case_sound : forall c, check_case c = true ->
 Proof. exact check_case_sound. Qed.
 Print Assumptions C14_check_case_sound.
 
+(* ---- the two recorded findings (regions where `step` is Unspec), as the code behaves today:
+        (a) append onto the atomless empty ensemble adopts a coordinate block wider than the atom list -> not Rect;
+        (b) an explicit n_conformers=0 with a Molecule yields ONE conformer (rectangular, but not what was asked) *)
+Theorem C14_known_atomless_append_refuted : forall c q e,
+  atomless_empty e = true -> c <> [] -> ~ Rect (append_atomless_as_coded c q e).
+Proof. exact atomless_append_breaks. Qed.
+Print Assumptions C14_known_atomless_append_refuted.
+
+Theorem C14_known_ctor_zero : forall a, Rect (ctor_mol_zero_as_coded a) /\ nc (ctor_mol_zero_as_coded a) = 1.
+Proof. exact ctor_mol_zero_yields_one. Qed.
+Print Assumptions C14_known_ctor_zero.
+
 (* ---- non-vacuity: two molecules -> ensemble; append a chargeless geometry; two interleaved iterators with a
         write through a conformer in between; a rejected append (wrong atom count); extend by itself; io round
         trip; scale of the copy only *)
